@@ -5,7 +5,14 @@
      mldivide <v> m n <A: m*m> <B: m*n>
      mrdivide <v> m n <B: m*n> <A: n*n>
      minverse <v> n <A>
-     ls m n o <A: m*n> <B: m*o>          least squares by normal equations (LsSpec.ls_solve)
+     ls m n o <A: m*n> <B: m*o>          least squares by normal equations on the LU model (LsLu.ls_lu:
+                                         sound and complete, LsLuProofs.v); "ls none" = rank deficient
+     lsgj m n o <A: m*n> <B: m*o>        the same by Gauss-Jordan + a posteriori check (LsSpec.ls_solve)
+     luc <v> n <A>                       LuPartial.lu_c: what the C code returns when a pivot is exactly 0
+         -> luc stop=<j|none> det=<nan| re im> piv=<row_index of the last finite state>
+            a= <working array of that state (stop=j: the state BEFORE column j)>
+     mldivide_c|mrdivide_c|minverse_c    same arguments as mldivide / mrdivide / minverse
+         -> <op> det=<nan| re im> sol=none | x= ...
    complex = two rationals "p/q".  Output: one line per case (exact rationals). *)
 #include "glue.ml.inc"
 let toks = ref []
@@ -50,13 +57,43 @@ let () =
            let a = matrix n n in
            let (x, d) = (if v then q2_minverse_recip else q2_minverse_max) a (nat_of_int n) in
            Printf.printf "minverse det= %s x= %s\n" (string_of_qi (u d)) (pm x)
-         | "ls" ->
+         | "luc" ->
+           let v = variant () in
+           let n = int_of_string (next ()) in
+           let a = matrix n n in
+           let r = (if v then q2_lu_c_recip else q2_lu_c_max) a (nat_of_int n) in
+           let (stop, det, st) = (match r with
+             | LuFinite st -> ("none", string_of_qi (u st.lu_d), st)
+             | LuNonFinite (j, st) -> (string_of_int (int_of_nat j), "nan", st)) in
+           Printf.printf "luc stop=%s det= %s piv=%s a= %s\n" stop det
+             (String.concat "," (List.map (fun k -> string_of_int (int_of_nat k)) st.lu_ri))
+             (pm st.lu_a)
+         | "mldivide_c" | "mrdivide_c" | "minverse_c" ->
+           let v = variant () in
+           let (xo, d) =
+             (match op with
+              | "mldivide_c" ->
+                let m = int_of_string (next ()) in let n = int_of_string (next ()) in
+                let a = matrix m m in let b = matrix m n in
+                (if v then q2_mldivide_c_recip else q2_mldivide_c_max) a b (nat_of_int m) (nat_of_int n)
+              | "mrdivide_c" ->
+                let m = int_of_string (next ()) in let n = int_of_string (next ()) in
+                let b = matrix m n in let a = matrix n n in
+                (if v then q2_mrdivide_c_recip else q2_mrdivide_c_max) b a (nat_of_int m) (nat_of_int n)
+              | _ ->
+                let n = int_of_string (next ()) in
+                let a = matrix n n in
+                (if v then q2_minverse_c_recip else q2_minverse_c_max) a (nat_of_int n)) in
+           Printf.printf "%s det= %s %s\n" op
+             (match d with DetNaN -> "nan" | DetFin x -> string_of_qi (u x))
+             (match xo with None -> "sol=none" | Some x -> "x= " ^ pm x)
+         | "ls" | "lsgj" ->
            let m = int_of_string (next ()) in let n = int_of_string (next ()) in
            let oo = int_of_string (next ()) in
            let a = matrix m n in let b = matrix m oo in
-           (match q2_ls_solve (nat_of_int m) (nat_of_int n) (nat_of_int oo) a b with
-            | None -> Printf.printf "ls none\n"
-            | Some x -> Printf.printf "ls x= %s\n" (pm x))
+           (match (if op = "ls" then q2_ls_lu else q2_ls_solve) (nat_of_int m) (nat_of_int n) (nat_of_int oo) a b with
+            | None -> Printf.printf "%s none\n" op
+            | Some x -> Printf.printf "%s x= %s\n" op (pm x))
          | _ -> Printf.printf "unknown %s\n" op)
       end
     done
